@@ -11,6 +11,8 @@ CONSTANTS
   RedVars <- L_RedVars
   SubVals <- L_SubVals
   NewNames <- L_NewNames
+  APlus = "logaddexp"
+  ATimes = "add"
   Tag = "semiring_logaddexp"
 INVARIANT Inv_TypeSound
 INVARIANT Emit
